@@ -138,6 +138,19 @@ def call_external(h: Any, name: str, args: List[AV], kwargs: Dict[str, AV], node
             r = range(*[a.value for a in args])
             if len(r) <= 256:
                 return i.new_list([Const(k) for k in r])
+        # range(len(V)) / range(0, len(V)) over a document array = its index sequence
+        stop = None
+        if len(args) == 1:
+            stop = args[0]
+        elif len(args) == 2 and isinstance(args[0], Const) and args[0].value == 0:
+            stop = args[1]
+        if isinstance(stop, IntV) and len(stop.lin.coefs) == 1 and stop.lin.const == 0:
+            (var, c), = stop.lin.coefs.items()
+            if c == 1:
+                for key, lv in h.len_vars.items():
+                    if lv == var and key[0] == "sym":
+                        for sym in h.len_syms.get(var, []):
+                            return Source("indices", sym, id=ctx.new_id(), depth=i.loop_depth)
         return Source("range", tuple(args), id=ctx.new_id(), depth=i.loop_depth)
     if short in ("reversed", "sorted"):
         kind, payload = h.iterate(args[0], node)
@@ -218,12 +231,20 @@ def call_external(h: Any, name: str, args: List[AV], kwargs: Dict[str, AV], node
     if short == "contextlib.suppress":
         return Term("suppress", tuple(args), ctx.new_id())
     if short == "collections.deque":
+        q = AbsQueue(ctx.new_id(), depth=i.loop_depth)
         if args:
-            m = h.materialize(args[0], node)
-            if isinstance(m, PyList):
-                return m
-            return m
-        return i.new_list([])
+            kind, payload = ("none", None)
+            try:
+                kind, payload = h.iterate(args[0], node)
+            except Unsupported:
+                kind = "none"
+            if kind == "concrete":
+                q.items = list(payload)
+            else:
+                q.items = None
+                q.origin = args[0]
+                q.log.append(("init", args[0], i.site(node)))
+        return q
     if short in BUILTIN_EXC_BASES or short in ("json.JSONDecodeError",):
         msg = ""
         if args:
@@ -299,6 +320,10 @@ def _iter_of(h: Any, v: AV, node: Any) -> AV:
 
 def builtin_next(h: Any, args: List[AV], node: Any) -> AV:
     it = args[0]
+    if isinstance(it, Inst):
+        m = it.cls.find_method("__next__")
+        if m is not None:
+            return h.i.call_function(m, [it], {}, node, self_av=it)
     if isinstance(it, Term) and it.op == "iter":
         lst, pos = it.args
         if pos[0] < len(lst.items):
@@ -348,9 +373,10 @@ def convert_number(h: Any, which: str, args: List[AV], node: Any) -> AV:
         r = h.ctx.choose((which, "of-str", v.id), ["ok", "ValueError"])
         if r != "ok":
             raise h.raise_("ValueError", f"invalid literal for {which}()", node)
-        if which == "int":
-            return h.i.new_int(f"int({v.label})")
-        return Term("float", (v,), h.ctx.new_id())
+        key = (which, v.id)
+        if key not in h.conversions:
+            h.conversions[key] = h.i.new_int(f"int({v.label})") if which == "int" else Term("float", (v,), h.ctx.new_id())
+        return h.conversions[key]
     if isinstance(v, Term) and v.op == "float":
         r = h.ctx.choose(("int-of-float", v.id), ["ok", "OverflowError", "ValueError"])
         if r != "ok":
@@ -572,6 +598,52 @@ def call_method(h: Any, recv: AV, name: str, args: List[AV], kwargs: Dict[str, A
         if name == "copy":
             return Source(recv.view, recv.base, recv.order, fresh=True, id=ctx.new_id(), depth=i.loop_depth, extra=recv.extra)
         return Term("srcmeth", (recv, name, tuple(args)), ctx.new_id())
+    if isinstance(recv, AbsQueue):
+        site = i.site(node)
+        if recv.items is not None:
+            # still concrete
+            if name in ("append", "appendleft", "pop", "popleft", "clear"):
+                h.note_mutation(recv, (name,), node)
+            if name == "append":
+                recv.items.append(args[0])
+                return NONE
+            if name == "appendleft":
+                recv.items.insert(0, args[0])
+                return NONE
+            if name in ("pop", "popleft"):
+                if not recv.items:
+                    raise h.raise_("IndexError", "pop from an empty deque", node)
+                return recv.items.pop(0 if name == "popleft" else -1)
+            if name == "clear":
+                recv.items.clear()
+                return NONE
+            if name in ("extend", "extendleft"):
+                kind, payload = h.iterate(args[0], node)
+                if kind == "concrete" and name == "extend":
+                    h.note_mutation(recv, (name,), node)
+                    recv.items.extend(payload)
+                    return NONE
+                # goes abstract
+                for x in recv.items:
+                    recv.log.append(("append", (x,), site))
+                recv.items = None
+        if name in ("append", "appendleft", "extend", "extendleft", "clear", "rotate", "remove", "insert"):
+            if recv.depth < i.loop_depth:
+                i.emit(Ev("queue", value=recv, info=(name, tuple(args)), site=site))
+            recv.log.append((name, tuple(args), site))
+            return NONE
+        if name in ("popleft", "pop"):
+            item = _queue_item(h, recv, name)
+            if recv.depth < i.loop_depth:
+                i.emit(Ev("queue", value=recv, info=(name, (item,)), site=site))
+            recv.log.append((name, (item,), site))
+            return item
+        if name == "copy":
+            q = AbsQueue(ctx.new_id(), depth=i.loop_depth, origin=recv)
+            q.log.append(("init", recv, site))
+            q.items = list(recv.items) if recv.items is not None else None
+            return q
+        raise h.unsupported(node, f"deque.{name}")
     if isinstance(recv, SliceV):
         if name == "indices":
             st = recv.step
@@ -603,3 +675,61 @@ def call_method(h: Any, recv: AV, name: str, args: List[AV], kwargs: Dict[str, A
 
 
 DICT_MUT = {"setdefault", "pop", "update", "popitem", "clear"}
+
+
+def _first_yield(events: Any) -> Any:
+    for e in events:
+        if e.kind == "yield":
+            return e.value
+        if e.kind == "foreach":
+            r = _first_yield(e.body)
+            if r is not None:
+                return r
+    return None
+
+
+def _queue_samples(q: Any, seen: Any = None) -> List[AV]:
+    seen = seen if seen is not None else set()
+    if q.id in seen:
+        return []
+    seen.add(q.id)
+    out: List[AV] = []
+    for entry in q.log:
+        op, payload = entry[0], entry[1]
+        if op in ("append", "appendleft"):
+            out.append(payload[0])
+        elif op in ("extend", "extendleft", "init"):
+            src = payload[0] if isinstance(payload, tuple) else payload
+            if isinstance(src, Stream):
+                y = _first_yield(src.events)
+                if y is not None:
+                    out.append(y)
+            elif isinstance(src, PyList) and src.items:
+                out.append(src.items[0])
+            elif isinstance(src, AbsQueue):
+                out += _queue_samples(src, seen)
+    return out
+
+
+def _queue_item(h: Any, q: Any, name: str) -> AV:
+    """The generic item taken from a work queue, typed like the items put into it."""
+    i = h.i
+    samples = _queue_samples(q)
+    shape = None
+    for smp in samples:
+        if isinstance(smp, PyTuple):
+            shape = smp
+            break
+    if shape is None:
+        return i.new_opaque(f"queue#{q.id}.{name}()")
+    comps: List[AV] = []
+    for k, c in enumerate(shape.items):
+        if isinstance(c, (IntV,)) or (isinstance(c, Const) and isinstance(c.value, int) and not isinstance(c.value, bool)):
+            comps.append(i.new_int(f"queue#{q.id}.item[{k}]"))
+        elif isinstance(c, Inst):
+            comps.append(i.new_opaque(f"queue#{q.id}.item[{k}]", c.cls))
+        elif isinstance(c, Opaque):
+            comps.append(i.new_opaque(f"queue#{q.id}.item[{k}]", c.hint))
+        else:
+            comps.append(i.new_opaque(f"queue#{q.id}.item[{k}]"))
+    return PyTuple(comps)
